@@ -6,6 +6,7 @@ import pathsum
 import witness
 from pathsum import ERR, OK, SOME, St, show_term, strip_sites
 
+RERUN_ON_CONFIGS = ("dfm", "std")
 LEVEL = "other"
 RULE_TEXT = ("C04-F format tables of every Response impl, read from path summaries with decoded format templates: integers "
              "are siblings writing `{}` of self; bool '1'/'0'; Characters the payload; floats share the decision table "
@@ -65,7 +66,7 @@ def run(ck):
         rid = c10.identify_res_buf(pex)
         if ck.judge(rid is not None, "C04-P", "process:res_buf", "response buffer identified", "cannot identify the response buffer"):
             c10.response_typestate(ck, pex, rid, "C04-P")
-    if ck.tier == "thorough":
+    if ck.tier == "thorough" and not ck.cfg_rerun:
         std = ctx.lib(ck, "std")
         if std is not None:
             rule_Q(ck, std, tag="std:")
@@ -477,6 +478,8 @@ def rule_W(ck, lib, tag=""):
 
 
 def rule_A(ck):
+    if getattr(ck, "cfg_rerun", False):
+        return      # witness interfaces are compiled against the default configuration only
     count = 400 if ck.tier == "thorough" else 40
     fs, specs, failures = witness.build(ck, ck.seed, count)
     wit = fs.crate("wit.rlib")
